@@ -162,9 +162,21 @@ class Check:
     def theorems_of(self, module: str) -> list[str]:
         path = LEAN / (module.replace(".", "/") + ".lean")
         src = strip_lean_comments(path.read_text())
-        ns = re.search(r"^namespace\s+(\S+)", src, re.M)
-        prefix = (ns.group(1) + ".") if ns else ""
-        return [prefix + m for m in re.findall(r"^theorem\s+([^\s:({\[]+)", src, re.M)]
+        stack: list[str] = []
+        out = []
+        for line in src.splitlines():
+            m = re.match(r"^\s*namespace\s+(\S+)", line)
+            if m:
+                stack.append(m.group(1))
+                continue
+            m = re.match(r"^\s*end\s+(\S+)", line)
+            if m and stack and stack[-1] == m.group(1):
+                stack.pop()
+                continue
+            m = re.match(r"^\s*(?:protected\s+|private\s+)?theorem\s+([^\s:({\[]+)", line)
+            if m:
+                out.append(".".join(stack + [m.group(1)]))
+        return out
 
     def prove(self, module: str, extra_modules: list[str] = ()) -> bool:
         """lake build of the property module; axiom audit of each of its theorems; forbidden-token grep
@@ -183,9 +195,9 @@ class Check:
             self.proof_status["build"] = "failed"
             return False
         self.proof_status["build"] = "ok"
-        # forbidden tokens
+        # forbidden tokens, over the import closure of the property module and of the driver
         bad = []
-        for f in sorted((LEAN / "Simaple").rglob("*.lean")) + [LEAN / "Driver.lean"]:
+        for f in self.import_closure([module, *extra_modules, "Simaple.Model.All"]) + [LEAN / "Driver.lean"]:
             if not f.exists():
                 continue
             m = FORBIDDEN_RE.search(strip_lean_comments(f.read_text()))
@@ -222,6 +234,22 @@ class Check:
         self.proof_status["discharged"] = discharged
         self.proof_status["axioms_used"] = sorted({a for v in axioms.values() for a in v})
         return discharged == len(thms) and p.returncode == 0
+
+    def import_closure(self, modules: list[str]) -> list[Path]:
+        """the Simaple.* source files a module depends on (transitively), including itself"""
+        seen: dict[str, Path] = {}
+        todo = list(modules)
+        while todo:
+            m = todo.pop()
+            if m in seen or not m.startswith("Simaple"):
+                continue
+            path = LEAN / (m.replace(".", "/") + ".lean")
+            if not path.exists():
+                continue
+            seen[m] = path
+            for imp in re.findall(r"^import\s+(\S+)", path.read_text(), re.M):
+                todo.append(imp)
+        return sorted(seen.values())
 
     def _theorems_at(self, errs) -> list[str]:
         res = []
@@ -338,6 +366,24 @@ class Check:
               f"{self.proof_status.get('obligations', 0)} discharged={self.proof_status.get('discharged', 0)} evaluations={cov['evaluations']} "
               f"failing={len(self.failing)} broken={len(self.broken)} exit={rc}")
         sys.exit(rc)
+
+
+def pmap(fn, args_list, budget_s: float, workers: Optional[int] = None):
+    """run fn(*args) for every args in a process pool (fn must be a module-level function); yields
+    (args, result) as they complete; stops handing out results when the budget is over (pending work is
+    cancelled).  Exceptions in a worker propagate (a crashed harness is exit 2, never a verdict)."""
+    import concurrent.futures as cf
+    workers = workers or min(16, os.cpu_count() or 4)
+    t0 = time.time()
+    with cf.ProcessPoolExecutor(max_workers=workers) as ex:
+        futs = {ex.submit(fn, *a): a for a in args_list}
+        try:
+            for f in cf.as_completed(futs, timeout=max(1.0, budget_s)):
+                yield futs[f], f.result()
+        except cf.TimeoutError:
+            for f in futs:
+                f.cancel()
+            yield None, {"budget_exhausted": True, "done": sum(1 for f in futs if f.done()), "total": len(futs)}
 
 
 def run_check(pid: str, main: Callable[[Check], None]):
